@@ -1266,6 +1266,16 @@ func (o *Obl) Query(sp *SpecPrelude, wantModel bool) string {
 
 // assemble adds the relevant background theory to a query body.
 func (g *Gen) assemble(sp *SpecPrelude, body string, wantModel bool) string {
+	return g.assembleOpt(sp, body, wantModel, false)
+}
+
+// coverSkip: definitional axioms with array-sorted or nested quantifiers keep the solvers from answering
+// `sat` on reachability (cover) queries. They are left out there: the cover check then over-approximates
+// reachability with respect to these definitions only (it exists to catch contradictory assumptions).
+var coverSkipBlocks = map[string]bool{"str.of": true}
+var coverSkipAxioms = map[string]bool{"xorstr": true}
+
+func (g *Gen) assembleOpt(sp *SpecPrelude, body string, wantModel bool, cover bool) string {
 	// relevance closure over spec axioms
 	text := body
 	inc := make([]bool, len(sp.Axioms))
@@ -1273,6 +1283,9 @@ func (g *Gen) assemble(sp *SpecPrelude, body string, wantModel bool) string {
 		changed = false
 		for i, a := range sp.Axioms {
 			if inc[i] {
+				continue
+			}
+			if cover && coverSkipAxioms[a.Name] {
 				continue
 			}
 			for _, s := range a.Syms {
@@ -1289,6 +1302,9 @@ func (g *Gen) assemble(sp *SpecPrelude, body string, wantModel bool) string {
 	sb.WriteString("(set-option :produce-models true)\n(set-logic ALL)\n")
 	sb.WriteString(preludeCore)
 	for _, b := range preludeBlocks {
+		if cover && coverSkipBlocks[b.trigger] {
+			continue
+		}
 		if strings.Contains(text, b.trigger) {
 			sb.WriteString(b.text)
 		}
@@ -1345,5 +1361,5 @@ func (g *Gen) CoverQuery(sp *SpecPrelude, blk int) string {
 		fmt.Fprintf(&body, "(assert %s)\n", c.text)
 	}
 	fmt.Fprintf(&body, "(assert %s)\n", at(blk))
-	return g.assemble(sp, body.String(), false)
+	return g.assembleOpt(sp, body.String(), false, true)
 }
